@@ -58,3 +58,35 @@ func (g *fakeGateway) counts() (gathered, int) {
 	defer g.mu.Unlock()
 	return countFamilies(g.last), g.accepted
 }
+
+// checkLabels: every series of the f1 metric families in the last accepted push carries test=<scenario> and each
+// static label with its own value.
+func (g *fakeGateway) checkLabels(scenario string, static map[string]string) string {
+	g.mu.Lock()
+	defer g.mu.Unlock()
+	seen := 0
+	for _, mf := range g.last {
+		if mf.GetName() != "form3_loadtest_iteration" && mf.GetName() != "form3_loadtest_setup" {
+			continue
+		}
+		for _, m := range mf.GetMetric() {
+			seen++
+			have := map[string]string{}
+			for _, l := range m.GetLabel() {
+				have[l.GetName()] = l.GetValue()
+			}
+			if have["test"] != scenario {
+				return "bad:test=" + have["test"]
+			}
+			for k, v := range static {
+				if have[k] != v {
+					return "bad:" + k + "=" + have[k]
+				}
+			}
+		}
+	}
+	if seen == 0 {
+		return "bad:no-series"
+	}
+	return "ok"
+}
